@@ -58,13 +58,13 @@ DEEP = {
     "C04": ["CoseProofs.FactsTie", "CoseProofs.Deep.Tamper"],
     "C05": ["CoseProofs.Deep.Reencode", "CoseProofs.Deep.Accept", "CoseProofs.Deep.SignMsg"],
     "C06": ["CoseProofs.Deep.NoPanic"],
-    "C07": ["CoseProofs.Deep.Accept"],
-    "C08": ["CoseProofs.Deep.Headers"],
+    "C07": ["CoseProofs.Deep.Accept", "CoseProofs.Deep.Verifies"],
+    "C08": ["CoseProofs.Deep.Headers", "CoseProofs.Deep.RoundTrip"],
     "C09": ["CoseProofs.Deep.Reencode", "CoseProofs.Deep.SignMsg"],
     "C11": ["CoseProofs.Deep.SignMsg"],
     "C10": ["CoseProofs.Deep.Tbs", "CoseProofs.FactsTie", "CoseProofs.Deep.Tamper"],
     "C12": ["CoseProofs.Deep.Keys", "CoseProofs.Deep.Chain", "CoseProofs.FactsTie"],
-    "C13": ["CoseProofs.Deep.Headers", "CoseProofs.FactsTie"],
+    "C13": ["CoseProofs.Deep.Headers", "CoseProofs.FactsTie", "CoseProofs.Deep.Verifies"],
     "C14": ["CoseProofs.Deep.Keys"],
     "C15": ["CoseProofs.Deep.Keys", "CoseProofs.FactsTie"],
     "C17": ["CoseProofs.FactsTie"],
